@@ -249,3 +249,47 @@ def gen_conj(seed, shard, n):
             ev["n0"], ev["dd"], ev["oc"] = BAD, BAD, _oc(ex)
         cnt += 1
         yield ev
+        if cnt % 3 == 0:
+            lev = _line_event(rng)
+            if lev is not None:
+                yield lev
+
+
+def _straight(a1, d1, a2, d2, a3, d3):
+    a1, d1, a2, d2, a3, d3 = [math.radians(v) for v in (a1, d1, a2, d2, a3, d3)]
+    return math.tan(d1) * math.sin(a2 - a3) + math.tan(d2) * math.sin(a3 - a1) + math.tan(d3) * math.sin(a1 - a2)
+
+
+def _line_event(rng):
+    """planet_stars_in_line on a synthetic ephemeris: fast, slow and nearly stationary planets (daily motion down to
+    0.03 degree with curvature), tables of 3 and 5 entries whose alignment function changes sign on the table"""
+    from pymeeus.Angle import Angle
+    from pymeeus.Coordinates import planet_stars_in_line
+    for _ in range(40):
+        half = rng.choice([1, 2])
+        ns = list(range(-half, half + 1))
+        v = rng.choice([1, -1]) * 10 ** rng.uniform(-1.5, 0.1)
+        c = rng.choice([0.0, rng.uniform(-0.02, 0.02)])
+        w = rng.uniform(-0.3, 0.3)
+        a0, d0 = rng.uniform(20, 340), rng.uniform(-40, 40)
+        t = rng.uniform(-0.8 * half, 0.8 * half)                 # alignment near this tabular time
+        pa = lambda n: a0 + v * (n - t) + c * (n - t) ** 2
+        pd = lambda n: d0 + w * (n - t)
+        # two stars on a line through the planet's place at n = t, across its motion
+        th = math.atan2(w, v * math.cos(math.radians(d0))) + math.pi / 2 + rng.uniform(-0.6, 0.6)
+        s1, s2 = rng.uniform(1.0, 6.0), -rng.uniform(1.0, 6.0)
+        st = [(a0 + s * math.cos(th) / math.cos(math.radians(d0)), d0 + s * math.sin(th)) for s in (s1, s2)]
+        ys = [_straight(pa(n), pd(n), st[0][0], st[0][1], st[1][0], st[1][1]) for n in ns]
+        if ys[0] * ys[-1] >= 0 or min(abs(ys[0]), abs(ys[-1])) < 1e-7:
+            continue
+        A1 = [Angle(pa(n)) for n in ns]
+        D1 = [Angle(pd(n)) for n in ns]
+        ev = {"k": "line", "half": half, "xq": [4 * n for n in ns], "ys": [fx(y) for y in ys], "vf": v, "cf": c,
+              "scale": fx(max(abs(y) for y in ys))}
+        try:
+            n0 = planet_stars_in_line(A1, D1, Angle(st[0][0]), Angle(st[0][1]), Angle(st[1][0]), Angle(st[1][1]))
+            ev["n0"], ev["oc"] = fx(float(n0)), "ok"
+        except Exception as ex:
+            ev["n0"], ev["oc"] = BAD, _oc(ex)
+        return ev
+    return None
